@@ -81,6 +81,17 @@ def _loop_as_comp(lp: Event, var: Term) -> Optional[Term]:
     if lp.term is None:
         return None  # while loop
     conds, exprs = [], []
+    # nested scan: ``for x in D: for y in E(x): [if c:] acc.append(f)``  ->  two generators
+    if len(lp.extra["paths"]) == 1 and lp.extra["paths"][0].cond == TRUE and lp.extra["paths"][0].exit in ("fall", "continue"):
+        a0 = _appends(lp.extra["paths"][0].events, var)
+        if a0 is not None and len(a0) == 1 and a0[0][0] == "loop":
+            inner = _loop_as_comp(a0[0][1], var)
+            if inner is not None:
+                elem0 = ("bound", "for", lp.node.lineno, show(lp.term))
+                cb0 = ("bound", 0, 0, show(lp.term))
+                gens = tuple((subst(d, {elem0: cb0}), tuple(subst(c, {elem0: cb0}) for c in cs)) for d, cs in inner[3])
+                # inner bounds keep their own label; shift their position index so that the two generators do not collide
+                return ("comp", "list", subst(inner[2], {elem0: cb0}), ((lp.term, ()),) + gens)
     for bp in lp.extra["paths"]:
         a = _appends(bp.events, var)
         if a is None or any(k != "item" for k, _ in a) or len(a) > 1:
